@@ -230,6 +230,16 @@ mut("R-C10-search-task-request-stop-stores-true", "C10", "stop-arm",
     ("src/uci.rs", "            .store(false, std::sync::atomic::Ordering::Relaxed);", "            .store(true, std::sync::atomic::Ordering::Relaxed);"), base=R + "R10-refactor2.diff")
 mut("R-C15-handle-line-continues-on-quit", "C15", "io-exits",
     ("src/uci.rs", "            return ControlFlow::Break(());", "            return ControlFlow::Continue(());"), base=R + "R10-refactor2.diff")
+# ---- the plain generators and the bit iteration underneath them
+mut("C01-knight-cannot-capture", "C01", "generators:Knight", ("src/board/piece/knight.rs", "        let move_mask = Self::get_attacks(square) & !same_pieces;", "        let move_mask = Self::get_attacks(square) & !board.bitboards.all_pieces;"))
+mut("C01-bishop-black-own-is-white", "C01", "generators:Bishop:Black", ("src/board/piece/bishop.rs", "            Color::Black => board.bitboards.black_pieces,", "            Color::Black => board.bitboards.white_pieces,"))
+mut("C01-queen-moves-carry-rook-kind", "C01", "generators:Queen", ("src/board/piece/queen.rs", "            .map(|s| Ply::new(square, s, Kind::Queen(color)))", "            .map(|s| Ply::new(square, s, Kind::Rook(color)))"))
+mut("C01-rook-ignores-blockers", "C01", "generators:Rook", ("src/board/piece/rook.rs", "        let move_mask = Self::get_attacks(square, board.bitboards.all_pieces) & !same_pieces;", "        let move_mask = Self::get_attacks(square, same_pieces) & !same_pieces;"))
+mut("C01-king-skips-first-target", "C01", "generators:King", ("src/board/piece/king.rs", "            .into_iter()\n            .map(|s| Ply::new(square, s, Kind::King(color)))", "            .into_iter()\n            .skip(1)\n            .map(|s| Ply::new(square, s, Kind::King(color)))"))
+mut("C06-bit-iteration-stops-at-last-bit", "C06", "bit-iteration", ("src/board/bitboard.rs", "        while mask != 0 {\n            let idx = mask.trailing_zeros() as u8;", "        while mask.count_ones() > 1 {\n            let idx = mask.trailing_zeros() as u8;"))
+mut("C06-bit-iteration-clears-before-reading", "C06", "bit-iteration", ("src/board/bitboard.rs", "            let idx = mask.trailing_zeros() as u8;\n            squares.push(Square::from(idx));\n            mask &= mask - 1;", "            mask &= mask - 1;\n            let idx = mask.trailing_zeros() as u8;\n            squares.push(Square::from(idx));"))
+mut("C06-bit-iteration-skips-h8", "C06", "bit-iteration", ("src/board/bitboard.rs", "            squares.push(Square::from(idx));\n            mask &= mask - 1;", "            if idx < 63 {\n                squares.push(Square::from(idx));\n            }\n            mask &= mask - 1;"))
+mut("R-C01-bit-loop-start-dest-swapped", "C01", "generators", ("src/board/piece.rs", "        moveset.push(Ply::new(start, dest, piece));", "        moveset.push(Ply::new(dest, start, piece));"), base=R + "R12-refactor3.diff")
 # ---- on the fifth wave: castling moves produced by a loop over the two wings (R12-3)
 K12 = "src/board/piece/king.rs"
 mut("R-C01-castle-loop-queenside-file-b", "C01", "castle-move", (K12, "const QUEENSIDE_DEST_FILE: u8 = 2; // c-file", "const QUEENSIDE_DEST_FILE: u8 = 1; // c-file"), base=R + "R12-refactor3.diff")
